@@ -30,6 +30,23 @@ Scan(n, found, last, acc) ==
      ELSE IF Len(page) = PS THEN Scan(n, found, page[PS], t.acc)
      ELSE t.acc
 
+\* the same loop when the k-th statement fails: the whole traversal fails (no partial result is handed to the engine)
+Err == <<-1>>
+RECURSIVE ScanF(_, _, _, _, _, _)
+ScanF(n, found, last, acc, stmt, failAt) ==
+  IF stmt = failAt THEN Err
+  ELSE LET page == [i \in 1..(IF n - last < PS THEN n - last ELSE PS) |-> last + i]
+           RECURSIVE Take(_, _)
+           Take(i, a) == IF i > Len(page) THEN [acc |-> a, hit |-> FALSE]
+                         ELSE IF page[i] \in found THEN [acc |-> Append(a, page[i]), hit |-> TRUE]
+                         ELSE Take(i + 1, Append(a, page[i]))
+           t == Take(1, acc)
+       IN IF t.hit THEN t.acc
+          ELSE IF Len(page) = PS THEN ScanF(n, found, page[PS], t.acc, stmt + 1, failAt)
+          ELSE t.acc
+\* C03 at this layer: under a failing statement the traversal is an error or the complete fault-free result, never a prefix of it
+FaultClosedFor(n, found) == \A k \in 1..(n \div PS + 2) : ScanF(n, found, 0, <<>>, 1, k) \in {Err, Scan(n, found, 0, <<>>)}
+
 FirstFound(n, found) == IF found \cap (1..n) = {} THEN n ELSE CHOOSE m \in found \cap (1..n) : \A x \in found \cap (1..n) : m <= x
 Expected(n, found) == [i \in 1..FirstFound(n, found) |-> i]
 Correct(n, found) == Scan(n, found, 0, <<>>) = Expected(n, found)
@@ -45,4 +62,5 @@ Next == /\ ~done /\ done' = TRUE /\ UNCHANGED <<n, found>>
                           last |-> IF n = 0 THEN 0 ELSE Scan(n, found, 0, <<>>)[Len(Scan(n, found, 0, <<>>))]]))
 Spec == Init /\ [][Next]_vars
 ScanCorrect == Correct(n, found)
+FaultClosed == FaultClosedFor(n, found)
 =============================================================================
